@@ -225,8 +225,9 @@ func c20qDiff(a, b []string, limit int) []string {
 // ---------------------------------------------------------------- child protocol
 
 type c20qLoad struct {
-	File string            `json:"file"` // path of the configuration file, "" = none given
-	Vars map[string]string `json:"vars"`
+	HasFile bool              `json:"has_file"`
+	Yaml    string            `json:"yaml"` // content of the configuration file
+	Vars    map[string]string `json:"vars"`
 }
 
 type c20qSpec struct {
@@ -268,8 +269,24 @@ func TestVerifC20SeqChild(t *testing.T) {
 	res := c20qRes{}
 	cfgs := make([]*Configuration, len(spec.Loads))
 
+	// one path for all loads of this process: the file is rewritten before each load (as on a configuration
+	// reload), so that anything remembered per path shows as well
+	cfgPath := t.TempDir() + "/config.yaml"
+
 	for i, l := range spec.Loads {
-		cfg, err := c20mLoad(l.File, l.Vars)
+		file := ""
+
+		os.Remove(cfgPath)
+
+		if l.HasFile {
+			if err := os.WriteFile(cfgPath, []byte(l.Yaml), 0o600); err != nil {
+				t.Fatal(err)
+			}
+
+			file = cfgPath
+		}
+
+		cfg, err := c20mLoad(file, l.Vars)
 		r := c20qLoadRes{Ok: err == nil, Err: c20mErr(err), Digest: "-", ChangedBy: -1, Later: []string{}}
 
 		if err == nil {
@@ -568,7 +585,6 @@ type c20qInput struct {
 	Desc []string          `json:"sections,omitempty"`
 	File string            `json:"file_yaml"` // "" = no file
 	Vars map[string]string `json:"vars"`
-	path string
 }
 
 func (in *c20qInput) key() string {
@@ -735,6 +751,14 @@ func c20qGen(r *vf.Rand, files map[string]string) c20qInput {
 			{"SERVE_DECISION_PORT", "seventy"}, {"CACHE_CONFIG", "scalar"}, {"SERVE_PROXY_TIMEOUT_READ", "soon"},
 			{"METRICS_ENABLED", "perhaps"}, {"SERVE_MANAGEMENT_CORS_MAX__AGE", "long"},
 		})
+		// (no variable below it: a variable that is an initial part of another is outside the property's domain
+		// and its outcome depends on Go's map order)
+		for name := range in.Vars {
+			if strings.HasPrefix(name, c20mPrefix+c[0]+"_") {
+				delete(in.Vars, name)
+			}
+		}
+
 		in.Vars[c20mPrefix+c[0]] = c[1]
 	}
 
@@ -860,34 +884,6 @@ func TestVerifC20Seq(t *testing.T) {
 		cases = append(cases, c)
 	}
 
-	// the files of the inputs (one per distinct content), written once
-	pathOf := map[string]string{}
-
-	for ci := range cases {
-		if !vf.Want(ci) {
-			continue
-		}
-
-		for k := range cases[ci].Loads {
-			in := &cases[ci].Loads[k]
-			if in.File == "" {
-				continue
-			}
-
-			fk := vf.KeyOf(in.File)
-			if _, ok := pathOf[fk]; !ok {
-				p := dir + "/cfg_" + fk + ".yaml"
-				if err := os.WriteFile(p, []byte(in.File), 0o600); err != nil {
-					t.Fatal(err)
-				}
-
-				pathOf[fk] = p
-			}
-
-			in.path = pathOf[fk]
-		}
-	}
-
 	// references: every distinct input alone in a fresh process, twice
 	type ref struct {
 		once sync.Once
@@ -910,7 +906,7 @@ func TestVerifC20Seq(t *testing.T) {
 		refMu.Unlock()
 
 		rf.once.Do(func() {
-			spec := c20qSpec{Loads: []c20qLoad{{File: in.path, Vars: in.Vars}}}
+			spec := c20qSpec{Loads: []c20qLoad{{HasFile: in.File != "", Yaml: in.File, Vars: in.Vars}}}
 			rf.a = c20qRunChild(dir, spec).Loads[0]
 			rf.b = c20qRunChild(dir, spec).Loads[0]
 		})
@@ -932,7 +928,7 @@ func TestVerifC20Seq(t *testing.T) {
 		spec := c20qSpec{}
 
 		for k := range c.Loads {
-			spec.Loads = append(spec.Loads, c20qLoad{File: c.Loads[k].path, Vars: c.Loads[k].Vars})
+			spec.Loads = append(spec.Loads, c20qLoad{HasFile: c.Loads[k].File != "", Yaml: c.Loads[k].File, Vars: c.Loads[k].Vars})
 		}
 
 		seq := c20qRunChild(dir, spec)
